@@ -1,7 +1,7 @@
 (* C01 -- A failing check always fails the run: lifecycle, failure count, exit value.
    Only statements; every proof is `exact <lemma>` into C01_Proofs.v. *)
 From Coq Require Import NArith ZArith Bool List.
-From CppUVerif Require Import gen.Gen_Common lib.CInt C01_Model C01_Proofs.
+From CppUVerif Require Import gen.Gen_Common lib.CInt C01_Model C01_Proofs C01_Console C01_ConsoleProofs.
 Import ListNotations.
 Local Open Scope Z_scope.
 
@@ -160,7 +160,95 @@ Theorem C01_build_independent : forall scn, existsb rhas_throw (s_tests scn) = f
 Proof. exact build_independent. Qed.
 Print Assumptions C01_build_independent.
 
-(* the executable oracle used on the implementation's observations accepts every model observation *)
-Theorem C01_run_meets_spec : forall exc scn, valid exc scn = true -> spec scn (run exc scn) = true.
+(* ------------------------------------------------------------------ the bytes that reach standard output (C01_Console.v) *)
+(* a buffered stdio stream shared by the runner and a forked child: the buffer is process memory (fork copies it, _exit drops it,
+   exit / fflush / a full buffer write it out).  With the code's discipline -- ConsoleTestOutput::printBuffer flushes after every
+   fputs -- every buffer is empty between two prints, so fork copies nothing, _exit drops nothing, and the file holds every chunk
+   that was printed, once, in order: for every capacity, every sequence of prints / forks / child exits, whichever way the child leaves *)
+Theorem C01_stdio_flush_each : forall d cap ops, d_flush_each d = true ->
+  let s := io_run d cap ops io0 in
+  io_parent s = [] /\ (io_child s = None \/ io_child s = Some []) /\ io_file s = puts ops /\ stdio_run d cap ops = puts ops.
+Proof. exact stdio_flush_each_inv. Qed.
+Print Assumptions C01_stdio_flush_each.
+
+(* another discipline is right as well (no flush per print; the stream is flushed before fork and by the child when it leaves): a
+   rewrite of the code to it must not raise an alarm *)
+Theorem C01_stdio_fork_exit : forall d cap ops, d_fork_flushes d = true -> d_exit_flushes d = true -> wf false ops = true ->
+  stdio_run d cap ops = puts ops.
+Proof. exact stdio_fork_exit. Qed.
+Print Assumptions C01_stdio_fork_exit.
+
+(* ... and these two are the only right ones among the eight: [once_stmt d] = for every capacity and every well-formed sequence of
+   operations the file is exactly what was printed *)
+Theorem C01_stdio_once_iff : forall d, once_stmt d <-> right_disc d = true.
+Proof. exact once_iff. Qed.
+Print Assumptions C01_stdio_once_iff.
+
+(* the seeded change (printBuffer without flush; plain fork; _exit) is refuted: a record printed by the child appears ZERO times (it
+   dies in the child's buffer), and with a full buffer in the child a record the runner printed before the fork appears TWICE *)
+Theorem C01_stdio_noflush_refuted : ~ once_stmt noflush_disc.
+Proof. exact noflush_refuted. Qed.
+Print Assumptions C01_stdio_noflush_refuted.
+
+Theorem C01_stdio_noflush_loses_and_duplicates :
+  count_rec rB (puts ops_lost) = 1%nat /\ count_rec rB (stdio_run noflush_disc 10 ops_lost) = 0%nat /\
+  count_rec rA (puts ops_dup) = 1%nat /\ count_rec rA (stdio_run noflush_disc 1 ops_dup) = 2%nat.
+Proof. exact noflush_loses_and_duplicates. Qed.
+Print Assumptions C01_stdio_noflush_loses_and_duplicates.
+
+(* whole runs through the real console output (stdout a pipe or a file, any buffer capacity, -v / -c, one process or -p): the failure
+   records that stand in the captured bytes are exactly the demanded ones -- every failed check, escaped exception and plugin-reported
+   error as often as it happened (once), where it happened; under -p each failed test followed by the runner's own record *)
+Theorem C01_console_records_once : forall exc xs io, valid_x exc xs = true -> x_io xs = Some io ->
+  exists c, run_x exc xs = XConsole c /\ co_escaped c = false /\
+    let want := flat_map (want_seg (i_sep io) (x_scn xs)) (rep_index (eff_repeat (c_repeat (s_cfg (x_scn xs))))) in
+    recs_of (co_items c) = want /\ forall f, occ f (recs_of (co_items c)) = occ f want.
+Proof. exact console_records_once. Qed.
+Print Assumptions C01_console_records_once.
+
+(* one summary per repetition (none lost, none twice); summary j carries the verdict of repetition j and the figures the runner's
+   process knows; in one process also the checks and the failures figure (the counters of a child die with it) *)
+Theorem C01_console_summaries_true : forall exc xs io, valid_x exc xs = true -> x_io xs = Some io ->
+  exists c, run_x exc xs = XConsole c /\
+    let n := eff_repeat (c_repeat (s_cfg (x_scn xs))) in
+    length (sums_of (co_items c)) = N.to_nat n /\
+    forall j m, nth_error (sums_of (co_items c)) j = Some m ->
+      let k := rep_want (x_scn xs) (N.of_nat j) in
+      m_ok m = rep_is_ok k /\ is_some (m_nfail m) = (0 <? k_fail k)%N /\
+      m_tests m = k_tests k /\ m_run m = k_run k /\ m_ign m = k_ign k /\ m_filt m = k_filt k /\
+      (i_sep io = false -> m_checks m = k_checks k /\ m_nfail m = if (0 <? k_fail k)%N then Some (k_fail k) else None).
+Proof. exact console_summaries_true. Qed.
+Print Assumptions C01_console_summaries_true.
+
+(* a failing check fails the run also when it failed in a forked child *)
+Theorem C01_console_exit_value : forall exc xs io, valid_x exc xs = true -> x_io xs = Some io ->
+  exists c z, run_x exc xs = XConsole c /\ co_ret c = Some z /\
+    let n := eff_repeat (c_repeat (s_cfg (x_scn xs))) in
+    (z = 0 <-> forall j, (j < n)%N -> rep_is_ok (rep_want (x_scn xs) j) = true).
+Proof. exact console_exit_value. Qed.
+Print Assumptions C01_console_exit_value.
+
+(* pipe or file, -v, -c, the capacity of the buffer, and any other discipline that flushes after every print: same observation *)
+Theorem C01_console_independent : forall exc xs xs' io io' d, valid_x exc xs = true -> x_io xs = Some io -> x_io xs' = Some io' ->
+  x_scn xs' = x_scn xs -> i_sep io' = i_sep io -> d_flush_each d = true -> run_x_with d exc xs' = run_x exc xs.
+Proof. exact console_independent. Qed.
+Print Assumptions C01_console_independent.
+
+Theorem C01_console_build_independent : forall xs, existsb rhas_throw (s_tests (x_scn xs)) = false -> run_x true xs = run_x false xs.
+Proof. exact run_x_build_independent. Qed.
+Print Assumptions C01_console_build_independent.
+
+(* the seeded change at the level of whole runs: the oracle rejects what the machine produces without the flush *)
+Theorem C01_console_noflush_refuted : ~ console_noflush_stmt.
+Proof. exact console_noflush_refuted. Qed.
+Print Assumptions C01_console_noflush_refuted.
+
+(* the executable oracle used on the implementation's observations accepts every model observation: plain scenarios ... *)
+Theorem C01_run_meets_spec_plain : forall exc scn, valid exc scn = true -> spec scn (run exc scn) = true.
 Proof. exact run_meets_spec. Qed.
+Print Assumptions C01_run_meets_spec_plain.
+
+(* ... and every valid scenario of the extended language (a plain scenario, or one with a console configuration) *)
+Theorem C01_run_meets_spec : forall exc xs, valid_x exc xs = true -> spec_x xs (run_x exc xs) = true.
+Proof. exact run_x_meets_spec. Qed.
 Print Assumptions C01_run_meets_spec.
